@@ -2,6 +2,7 @@
 SPECIFICATION Spec
 CONSTANTS
   FullWidthPad = TRUE
+  WsIgnored = TRUE
   EReps = {1}
   CovReps = {}
   VReps = {1}
@@ -12,5 +13,7 @@ CONSTANTS
   ERowReps = {1}
   VRowReps = {1}
   MaxArea = 4194304
+  WsNames = {}
+  PwNames = {""}
 INVARIANTS Refines
 CHECK_DEADLOCK FALSE
